@@ -106,7 +106,7 @@ class World(object):
         y = self.c(xs)
         self.ctx.assume(veq(self.c(y), y))
         if self.lo is not None and self.boxkeep:
-            self.ctx.assume(Implies(self.inside(xs), self.inside(y)))
+            self.ctx.assume(self._keeps_box(xs, y))
         if self.cons == 'inplace':
             for i in range(len(xs)):
                 x[i] = y[i]
@@ -134,8 +134,18 @@ class World(object):
         y = self.c(list(x))
         self.ctx.assume(veq(self.c(y), y))
         if self.lo is not None and self.boxkeep:
-            self.ctx.assume(Implies(self.inside(list(x)), self.inside(y)))
+            self.ctx.assume(self._keeps_box(list(x), y))
         return y
+
+    def _keeps_box(self, x, y):
+        """the constraints are compatible with the strict ranges: box -> box.  With `margin` (a per-coordinate d >= 0, set by
+        harnesses whose ranges go through mystic's 15-digit text form) compatibility holds robustly: [lo-d, hi+d] -> [lo+d, hi-d]"""
+        m = getattr(self, 'margin', None)
+        if not m:
+            return Implies(self.inside(x), self.inside(y))
+        wide = And(*[And(le(self.lo[i] - m[i], x[i]), le(x[i], self.hi[i] + m[i])) for i in range(self.dim)])
+        narrow = And(*[And(le(self.lo[i] + m[i], y[i]), le(y[i], self.hi[i] - m[i])) for i in range(self.dim)])
+        return Implies(wide, narrow)
 
     def feasible(self, x):
         """x is a fixed point of the constraints function"""
